@@ -123,6 +123,7 @@ func pyWorkload(g *gen.G, id string, n int) wl.Workload {
 	calls := []wl.Call{{Op: "header", Profile: g.Str(), Library: g.Str()}}
 	ns, nc := uint16(0), uint16(0)
 	var chans []uint16
+	var last uint16
 	seq := uint32(0)
 	t := g.Time()
 	for i := 0; i < n; i++ {
@@ -146,7 +147,13 @@ func pyWorkload(g *gen.G, id string, n int) wl.Workload {
 			} else {
 				t += uint64(g.R.Intn(5))
 			}
-			calls = append(calls, wl.Call{Op: "message", Ch: chans[g.R.Intn(len(chans))], Seq: seq, Log: t, Pub: g.Time(), Data: g.Payload(200)})
+			// bursts: a channel tends to go on for a while, so that runs of one channel straddle chunk boundaries
+			ch := chans[g.R.Intn(len(chans))]
+			if last != 0 && g.R.Intn(3) != 0 {
+				ch = last
+			}
+			last = ch
+			calls = append(calls, wl.Call{Op: "message", Ch: ch, Seq: seq, Log: t, Pub: g.Time(), Data: g.Payload(200)})
 		case r < 18:
 			calls = append(calls, wl.Call{Op: "attachment", Log: g.Time(), Create: g.Time(), Name: g.Str(), Media: g.Str(), Data: g.Payload(200)})
 		default:
@@ -393,6 +400,14 @@ func xrun(args []string) error {
 				tr.Add(d.ev)
 				tr.Add(infoEvent(d))
 				specs := readSpecs(rr, d, 3, false)
+				// one index-based read per topic of the file (up to eight): whatever the Python writer put into the chunk and
+				// message indexes must lead the Go reader to every message of that topic
+				for k, t := range d.topics {
+					if k >= 8 {
+						break
+					}
+					specs = append(specs, readSpec{Mode: "index", Order: []string{"file", "log", "rlog"}[k%3], Topics: [][]byte{t}, HasT: true, Form: "nanos"})
+				}
 				evs := make([]func() wl.Ev, len(specs))
 				for k, rs := range specs {
 					rs := rs
